@@ -167,6 +167,8 @@ def plan(tier):
             shards.append(("b", modname, k, min(k + 12, len(mod.ROWS)), tier))
     for ver in (4, 5, 6, 7):
         shards.append(("c", ver, tier))
+    shards.append(("seq", "arm", tier))
+    shards.append(("seq", "thumb", tier))
     if tier != "quick":
         heavy = []
         for cls in WIDE:
@@ -889,6 +891,79 @@ def run_c(res, agg, ver, tier):
 
 
 # ------------------------------------------------------------------------------------------------- shard driver
+SEQ_ARM = [("B .+4 (taken, to the next instruction)", 32, 0xEAFFFFFF), ("BNE .+8 (not taken)", 32, 0x1A000000),
+           ("MOVNE r0,#1 (condition fails)", 32, 0x13A00001), ("MOVEQ r1,#2 (passes)", 32, 0x03A01002),
+           ("BX r6 (to the next instruction)", 32, 0xE12FFF16), ("NOP", 32, 0xE320F000), ("LDRNE r2,[r3] (fails)", 32, 0x15932000),
+           ("MOV pc,r6", 32, 0xE1A0F006)]
+SEQ_THUMB = [("B .+2 (taken, to the next instruction)", 16, 0xE7FF), ("BNE (not taken)", 16, 0xD100), ("ITE NE", 16, 0xBF14),
+             ("MOVS r0,#1", 16, 0x2001), ("ADD.W r1,r1,#2", 32, 0xF1010102), ("BX r6 (to the next instruction)", 16, 0x4730),
+             ("NOP", 16, 0xBF00), ("CBNZ r7 (not taken)", 16, 0xB907)]
+
+
+def run_seq(res, iset):
+    """PC advance depends on per-step scratch state (which register the previous instruction wrote): all programs of
+    three instructions over a menu mixing taken branches, not-taken branches, condition-failed and IT-block
+    instructions are co-simulated with the reference stepper; the PC (and everything else) is compared after every
+    step.  r6 is patched per position to point at the following instruction, Z = 1 (NE fails), r7 = 0."""
+    from ..ref import model
+    from ..ref.state import St, Unpredictable
+    thumb = iset == "thumb"
+    menu = SEQ_THUMB if thumb else SEQ_ARM
+    env = semcheck.SemEnv({"arch_version": 7})
+    plan = env.plan
+    ix = plan.index
+    names = plan.names
+    for prog in itertools.product(range(len(menu)), repeat=3):
+        for base_addr in (0x10800, 0xFFFFFFF0):
+            regs = list(env.base[0])
+            regs[ix["cpsr"]] = 0x400001D3 | (0x20 if thumb else 0)
+            regs[ix["R.PC"]] = base_addr
+            regs[ix["R.R7usr"]] = 0
+            regs[ix["R.R3usr"]] = 0x10100
+            pre = tuple(regs)
+            plan.restore((pre, env.base[1]))
+            addr = base_addr
+            addrs = []
+            for mi in prog:
+                nm, olen, w = menu[mi]
+                machine.put_instr(env.cpu, addr & 0xFFFFFFFF, w, thumb, olen)
+                addrs.append(addr & 0xFFFFFFFF)
+                addr += olen // 8
+            for k in range(4):
+                machine.put_instr(env.cpu, (addr + 2 * k) & 0xFFFFFFFF, 0xBF00 if thumb else 0xE320F000, thumb, 16 if thumb else 32)
+            st = St(names, pre, plan.mem(), env.fullcfg)
+            res.cases += 1
+            res.add_state(hash((iset, prog, base_addr)))
+            for k in range(3):
+                if st.pc != addrs[k]:
+                    break
+                # BX r6 / MOV pc,r6 go to the instruction that follows them
+                nxt = (addrs[k] + menu[prog[k]][1] // 8) & 0xFFFFFFFF
+                st.loc["R.R6usr"] = nxt | (1 if thumb else 0)
+                env.cpu.registers.set(6, nxt | (1 if thumb else 0))
+                try:
+                    label = model.step(st)
+                except Unpredictable:
+                    res.outcome("seq model-unpredictable-stop")
+                    break
+                out = machine.step(env.cpu)
+                res.transitions += 1
+                post = plan.regs()
+                d = [("step", "ok", out)] if out[0] != "ok" else st.compare(names, post, plan.mem())
+                if d:
+                    res.fail("sequence: %s after %s" % ("PC" if d[0][0] == "R.PC" else d[0][0].split("[")[0],
+                                                        menu[prog[k - 1]][0].split(" (")[0] if k else "start"),
+                             "%s program %r at %#x, step %d (%s): model->impl %s" % (
+                                 iset, [menu[i][0] for i in prog], base_addr, k, label, machine.fmt_diff(d)),
+                             {"iset": iset, "program": [menu[i][2] for i in prog], "addr": base_addr})
+                    break
+                for loc in st.unknown:
+                    st.loc[loc] = post[ix[loc]]
+                st.unknown.clear()
+                res.outcome("seq step")
+    res.sample({"sequence_programs": iset, "menu": [m[0] for m in menu]}, 1)
+
+
 def run_shard(arg):
     res = Result()
     agg = Agg(res)
@@ -907,6 +982,8 @@ def run_shard(arg):
         run_b(res, agg, modname, k0, k1, tier)
     elif kind == "c":
         run_c(res, agg, arg[1], arg[2])
+    elif kind == "seq":
+        run_seq(res, arg[1])
     elif kind == "x":
         _, cls, j, tier = arg
         run_all_encodings(res, agg, cls, j, tier)
